@@ -811,6 +811,14 @@ def run(project: Project, rep, tier: str):
                         f"arguments changes from call to call", construct=f"{q_}: shared state {ev.origin}")
     if not any(o["rule"] == "KN-PURE" for o in rep.obligations):
         rep.discharged("KN-PURE", None, None, f"{n_k} kernel functions: no write to module-level or memoised objects")
+    # KN-DTYPE: the kernels are evaluated on pixel coordinates and centres the caller may give as integers: an accumulator
+    # typed by them must not receive the (fractional) terms of the expansions
+    from . import dtype_rule as _dt
+    _kfns = [fi_ for q_, fi_ in sorted(project.functions.items()) if q_.startswith(MOD + ".") and fi_.parent is None
+             and isinstance(fi_.node, (ast.FunctionDef, ast.AsyncFunctionDef))]
+    if _kfns:
+        _dt.run_on(project, rep, "KN-DTYPE", _kfns)
+    rep.floor("KN-DTYPE", 1)
     for rn, n in (("KN-PURE", 1), ("KN-GL", 3), ("KN-REGIME", 2), ("KN-AFF", 3), ("KN-UNITS", 6), ("KN-NORM", 1), ("KN-UNI", 1), ("KN-STALE", 1),
                   ("KN-SBVN", 1), ("KN-DISPATCH", 3)):
         rep.floor(rn, n)
